@@ -98,6 +98,12 @@ CLAIMED = {
                    "lookups/translations for a sandbox return what they return alone. Under correct lock primitives these imply race freedom and "
                    "non-interference for any number of threads.",
             "Does not cover weak-memory effects, the lock implementation, or custom shared-lock substitutes; no interleaving is executed.", "DESIGN.md 4/C18"),
+    "C08": (MC, "For generated structs registered through rlbox's reflection macros (all integer widths, bool, enum, float, double, object and function "
+                "pointers, arrays, arrays of pointers, nested struct; seeded permutations in the thorough tier): guest size and every field offset equal an "
+                "independent LP32 layout computed in Python; struct store writes every field's converted value at its offset and no other byte, aborts iff a "
+                "field is unrepresentable; both load forms, by-value argument and by-value result relate every field correctly - all field values and guest "
+                "bytes symbolic; from(to(s)) == s discharged as a composed query.",
+            "Const-qualified fields and nesting depth > 2 are outside the claim.", "DESIGN.md 4/C08"),
     "C05": (MC, "p+n, p-n, +=, -=, ++/-- (pre/post), p[n], &p[n] for 8 pointee types x integer index types (plain, tainted, tainted_volatile) on LP32/LP16 "
                 "model backends with symbolic region base, pointer and full-width index: returns iff the exact 128-bit address p+/-n*s_guest is inside "
                 "the region and then returns exactly it, else aborts; null aborts.",
